@@ -13,6 +13,8 @@ use std::time::Duration;
 pub enum ActorSpec {
     Backup { params: BackupParamsOwned, source: PathBuf, slot: usize },
     Delete { bands: Vec<u32>, dry_run: bool },
+    /// `delete_bands` / gc with `break_lock: true` (real code only: the model's schedules have no such actor)
+    DeleteBreakLock { bands: Vec<u32> },
 }
 
 #[derive(Clone, Debug)]
@@ -26,6 +28,7 @@ impl ActorSpec {
     pub fn model_token(&self, strict: u32) -> String {
         match self {
             ActorSpec::Backup { params, slot, .. } => format!("backup:{}:{}:{}:{}", params.hunk, params.block, params.cap, slot),
+            ActorSpec::DeleteBreakLock { .. } => "unsupported".to_string(),
             ActorSpec::Delete { bands, dry_run } => format!(
                 "delete:{}:{}:{}",
                 if *dry_run { 1 } else { 0 },
@@ -80,6 +83,10 @@ fn spawn_actor(archive_dir: &Path, spec: &ActorSpec, faults: Vec<crate::icept::F
                     ActorSpec::Delete { bands, dry_run } => {
                         let ids: Vec<BandId> = bands.iter().map(|b| BandId::from(*b)).collect();
                         archive.delete_bands(&ids, &DeleteOptions { dry_run: *dry_run, break_lock: false }, mon2).await.map(|s| delete_stats_text(&s))
+                    }
+                    ActorSpec::DeleteBreakLock { bands } => {
+                        let ids: Vec<BandId> = bands.iter().map(|b| BandId::from(*b)).collect();
+                        archive.delete_bands(&ids, &DeleteOptions { dry_run: false, break_lock: true }, mon2).await.map(|s| delete_stats_text(&s))
                     }
                 }
             }
